@@ -21,6 +21,22 @@ package tokenizers
 //@     invariant line == L(seq(sc(scanner).content), old(cur(scanner))) && column == C(seq(sc(scanner).content), old(cur(scanner)))
 //@     decreases len(sc(scanner).content) - sc(scanner).position
 
+// whether the first character after the braces, blanks aside, is the comment mark: decided on the text (so that it does not
+// depend on which tokens the skip options drop), and the scanner is back where it was
+//@ func (c *MustacheTokenizer) commentMarkAhead
+//@   requires c != nil && c.AbstractTokenizer != nil && isScanner(c.AbstractTokenizer.Scanner)
+//@   ensures[C15,C04] isScanner(c.AbstractTokenizer.Scanner) && sc(c.AbstractTokenizer.Scanner).content == old(sc(c.AbstractTokenizer.Scanner).content)
+//@   ensures[C15,C04,C12] sc(c.AbstractTokenizer.Scanner).position == old(sc(c.AbstractTokenizer.Scanner).position) &&
+//@       sc(c.AbstractTokenizer.Scanner).line == old(sc(c.AbstractTokenizer.Scanner).line) && sc(c.AbstractTokenizer.Scanner).column == old(sc(c.AbstractTokenizer.Scanner).column)
+//@   assigns sc(c.AbstractTokenizer.Scanner).position, sc(c.AbstractTokenizer.Scanner).line, sc(c.AbstractTokenizer.Scanner).column
+//@   nopanic
+//@   loop 0
+//@     invariant isScanner(c.AbstractTokenizer.Scanner) && sc(c.AbstractTokenizer.Scanner).content == old(sc(c.AbstractTokenizer.Scanner).content)
+//@     invariant c.AbstractTokenizer == old(c.AbstractTokenizer) && c.AbstractTokenizer.Scanner == old(c.AbstractTokenizer.Scanner)
+//@     invariant count >= 0 && sc(c.AbstractTokenizer.Scanner).position == old(sc(c.AbstractTokenizer.Scanner).position) + count &&
+//@         sc(c.AbstractTokenizer.Scanner).position <= len(sc(c.AbstractTokenizer.Scanner).content)
+//@     invariant nextSymbol == chr(seq(sc(c.AbstractTokenizer.Scanner).content), sc(c.AbstractTokenizer.Scanner).position + 1)
+//@     decreases len(sc(c.AbstractTokenizer.Scanner).content) - sc(c.AbstractTokenizer.Scanner).position
 // the body of a comment tag: free text up to (not including) the next "}}" or the end of input; nil when it is empty
 //@ func (c *MustacheTokenizer) readCommentBody
 //@   requires c != nil && c.AbstractTokenizer != nil && isScanner(c.AbstractTokenizer.Scanner)
